@@ -279,6 +279,9 @@ class CellConversion:
                                                   union_ids)
                 arg_ids.append(t4_cell_id)
 
+            if any(arg_id is None for arg_id in arg_ids):
+                # one of the operands is patently empty, so is the intersection
+                return None
             ops = self.conv_intersection(*arg_ids)
 
             self.dic_vol_t4[p_id] = VolumeT4(pluses=pluses, minuses=minuses,
@@ -298,6 +301,10 @@ class CellConversion:
                                                   union_ids)
                 arg_ids.append(t4_cell_id)
 
+            # patently empty operands do not contribute to the union
+            arg_ids = [arg_id for arg_id in arg_ids if arg_id is not None]
+            if not arg_ids:
+                return None
             pluses, minuses, ops = self.conv_union_helpers(*arg_ids,
                                                            union_ids=union_ids)
         else:
@@ -311,6 +318,7 @@ class CellConversion:
                 t4_cell_id = self.convert_cellref(cellref.cell, matching,
                                                   union_ids)
                 arg_ids.append(t4_cell_id)
+            arg_ids = [arg_id for arg_id in arg_ids if arg_id is not None]
             ops = self.conv_union(*arg_ids)
         self.dic_vol_t4[p_id] = VolumeT4(pluses=pluses, minuses=minuses,
                                          ops=ops, idorigin=idorigin)
